@@ -206,3 +206,50 @@ Proof.
   - destruct (IH _ _ H) as [l2 H2]. destruct (rev_apply_sched s e) as [l1 H1].
     exists (l1 ++ l2). rewrite rrun_app, <- H1. exact H2.
 Qed.
+
+(* --- a request under the caller's context stays while that context lives ---------------------- *)
+
+Lemma nth_error_set_nth_other {A} (l : list A) : forall i j x, i <> j -> nth_error (set_nth l j x) i = nth_error l i.
+Proof.
+  induction l as [|y l IH]; intros i j x Hij; destruct j; destruct i; cbn; try reflexivity; try congruence.
+  apply IH. congruence.
+Qed.
+
+Lemma caller_ctx_step_keeps s a s' i :
+  r_req s = RqCaller -> r_caller_done s = false -> stat_at s i = Some SCall ->
+  a <> RCallerEnd -> (forall ok, a <> RBase (Return i ok)) ->
+  rstep s a = Some s' ->
+  r_req s' = RqCaller /\ r_caller_done s' = false /\ stat_at s' i = Some SCall.
+Proof.
+  intros Hq Hc Hi Ha1 Ha2 H. unfold stat_at in *. destruct a as [b| |j]; cbn [rstep] in H.
+  - destruct (fstep (r_f s) b) as [f'|] eqn:E; [|discriminate]. injection H as <-.
+    cbn [with_f r_f r_req r_caller_done]. repeat split; try assumption.
+    destruct b as [j ok|j| | |]; cbn [fstep] in E.
+    + destruct (nth_error (f_snd (r_f s)) j) as [[| |]|] eqn:Ej; try discriminate. injection E as <-.
+      cbn [f_snd]. rewrite nth_error_set_nth_other; [exact Hi|].
+      intro Heq. subst j. apply (Ha2 ok). reflexivity.
+    + destruct (nth_error (f_snd (r_f s)) j) as [[| |]|] eqn:Ej; try discriminate.
+      destruct (f_buf (r_f s) <? f_cap (r_f s)); [|discriminate]. injection E as <-.
+      cbn [f_snd]. rewrite nth_error_set_nth_other; [exact Hi|].
+      intro Heq. subst j. rewrite Hi in Ej. discriminate.
+    + destruct (negb (f_coll_done (r_f s)) && (0 <? f_buf (r_f s)) && (f_recvd (r_f s) <? f_k (r_f s))); [|discriminate].
+      injection E as <-. exact Hi.
+    + destruct (negb (f_coll_done (r_f s)) && f_has_timeout (r_f s)); [|discriminate]. injection E as <-. exact Hi.
+    + destruct (negb (f_coll_done (r_f s)) && f_detect (r_f s) && (count_stat SCall (f_snd (r_f s)) =? 0) && (f_succ (r_f s) =? 0)); [|discriminate].
+      injection E as <-. exact Hi.
+  - exfalso. apply Ha1. reflexivity.
+  - unfold req_done in H. rewrite Hq, Hc, andb_false_r in H. discriminate.
+Qed.
+
+Lemma caller_ctx_request_stays : forall sch s i,
+  r_req s = RqCaller -> r_caller_done s = false -> stat_at s i = Some SCall ->
+  Forall (fun a => a <> RCallerEnd /\ forall ok, a <> RBase (Return i ok)) sch ->
+  stat_at (rrun sch s) i = Some SCall /\ r_caller_done (rrun sch s) = false.
+Proof.
+  induction sch as [|a sch IH]; intros s i Hq Hc Hi Hall; [split; assumption|].
+  inversion Hall as [|? ? [Ha1 Ha2] Hrest]; subst.
+  cbn [rrun fold_left]. fold (rrun sch (rexec s a)). unfold rexec.
+  destruct (rstep s a) as [s'|] eqn:E.
+  - destruct (caller_ctx_step_keeps s a s' i Hq Hc Hi Ha1 Ha2 E) as (Hq' & Hc' & Hi'). apply IH; assumption.
+  - apply IH; assumption.
+Qed.
